@@ -436,6 +436,55 @@ func corrC03(outDir string, seed uint64, tier string, replay string) *report {
 			}
 		}()
 	}
+	// ---- every password length of the shared domain (libxcrypt accepts up to 511 bytes) against libxcrypt ----
+	// one fixed salt and the cheapest cost per scheme; the step is 1: buffering, batching and block-boundary
+	// mistakes live at single lengths
+	if xc != nil {
+		maxLen, step := 511, 1
+		lr := newRng(seed ^ 0x1e9)
+		for n := 0; n <= maxLen; n += step {
+			b := lr.bytes(n)
+			for k := range b {
+				if b[k] == 0 {
+					b[k] = 0x81
+				}
+			}
+			pw := string(b)
+			a := map[string]interface{}{"password_len": n, "password_hex": hx(b)}
+			func() {
+				defer func() {
+					if r := recover(); r != nil {
+						notePanic("Key of a classic scheme (C03 length sweep)", "password_hex="+hx(b)+"; "+firstLibFrame(), r)
+					}
+				}()
+				if k, err := md5.Key(b, []byte("saltsalt")); err == nil {
+					ref("md5", a, pw, "$1$saltsalt$"+crypthash.LittleEndianEncoding.EncodeToString(k))
+				}
+				if k, err := sha256.Key(b, []byte("saltsaltsaltsalt"), 1000); err == nil {
+					ref("sha256", a, pw, "$5$rounds=1000$saltsaltsaltsalt$"+crypthash.LittleEndianEncoding.EncodeToString(k))
+				}
+				if k, err := sha512.Key(b, []byte("saltsaltsaltsalt"), 1000); err == nil && (n%2 == 0 || n > 100 || tier == "thorough") {
+					ref("sha512", a, pw, "$6$rounds=1000$saltsaltsaltsalt$"+crypthash.LittleEndianEncoding.EncodeToString(k))
+				}
+				if k, err := sha1.Key(b, []byte("saltsalt"), 3); err == nil {
+					ref("sha1", a, pw, "$sha1$3$saltsalt$"+crypthash.LittleEndianEncoding.EncodeToString(k))
+				}
+				if k, err := desext.Key(b, []byte("salt"), 1); err == nil {
+					ref("desext", a, pw, "_/...salt"+crypthash.BigEndianEncoding.EncodeToString(k))
+				}
+				if n <= 72 {
+					salt := "abcdefghijklmnopqrstuu"
+					for _, prefix := range []string{"$2b$", "$2a$"} {
+						if k, err := bcrypt.Key(b, []byte(salt), 4, &bcrypt.CompatibilityOptions{Prefix: prefix}); err == nil {
+							ref("bcrypt", a, pw, prefix+"04$"+salt+bcrypt.Encoding.EncodeToString(k))
+						}
+					}
+				}
+			}()
+			rep.count(fmt.Sprint("lensweep", n), n > 0)
+			rep.bump("length_sweep_lengths")
+		}
+	}
 	rep.Distribution["model_primitive_calls"] = m.calls
 	rep.Rule = "per scheme: passwords of length 0..19, 31..253 and random (8-bit, NUL-free), salts of every legal length, cheap rounds; the implementation's Key vs the extracted Coq model of the in-repo KDF control code (impl) and vs the specification function (spec), both run with the real primitives served by the harness; the encoded hash vs libxcrypt 4.4 crypt(3) (secondary oracle, both directions coincide when strings are equal). Non-trivial = non-empty password; distinct by (scheme, password, salt)."
 	return rep
